@@ -404,9 +404,9 @@ CaptureLeavesOutput ==
 (* filter brackets in the final output are well nested: content passes its filter exactly once *)
 FilterOnce ==
   m.done => LET o == m.bufs[1]
-                D[i \in 0..Len(o)] == IF i = 0 THEN 0
-                                      ELSE D[i - 1] + (IF o[i].t = "F(" THEN 1 ELSE IF o[i].t = ")" THEN 0 - 1 ELSE 0)
-            IN D[Len(o)] = 0 /\ \A i \in 0..Len(o) : D[i] >= 0
+                Cnt(i, t) == Cardinality({j \in 1..i : o[j].t = t})
+            IN /\ Cnt(Len(o), "F(") = Cnt(Len(o), ")")
+               /\ \A i \in 1..Len(o) : o[i].t = ")" => Cnt(i, "F(") >= Cnt(i, ")")
 (* an unhandled exception reaches the top as itself; a handled one does not *)
 Propagates == m.done => (m.res = "ok" \/ m.res = "handled" \/ m.res = "page" \/ (m.mode = "exc" /\ m.res = "exc:" \o m.exck))
 
